@@ -21,6 +21,11 @@ pub fn gen(seed: u64, tier: Tier, k: u64) -> Value {
     // 1..4 content packs: the main one + 0..3 extras; separate files so that each can go missing
     let n_extra = (k % 4) as usize;
     let pkg = if k % 2 == 0 { Pkg::TwoFiles } else { Pkg::NoConcat };
+    if k % 8 == 7 {
+        // 3..4 content packs, all but the last embedded with the empty location
+        let case = gen_small(&mut rng, tier, Pkg::NoConcat, 2 + (k / 8 % 2) as usize, 4);
+        return json!({"case": case.to_json(), "scn_seed": rng.next(), "mode": "loose"});
+    }
     let case = gen_small(&mut rng, tier, pkg, n_extra, 5);
     json!({"case": case.to_json(), "scn_seed": rng.next()})
 }
@@ -42,7 +47,144 @@ fn copy_dir(src: &Path, dst: &Path) {
     }
 }
 
+/// Embedded content packs sharing one (empty) location next to an external one: packs built with the low-level
+/// creators, all but the last recorded with location "" and joined with manifest and directory by tools::concat.
+/// The external pack is removed or kept; one EMBEDDED pack that is not the first one gets an altered byte.
+fn run_loose(desc: &Value, ctx: &Ctx) -> CaseOut {
+    let mut out = CaseOut::new();
+    let case = ContCase::from_json(desc.get("case").unwrap());
+    let mut rng = Rng::new(ju64(desc, "scn_seed"));
+    let scratch = Scratch::new(&ctx.work, "c11l");
+    let mut fp = Fp::new();
+    fp.s("loose").u(case.extra.len() as u64).u(ju64(desc, "scn_seed"));
+    out.fp = fp.hex();
+    let n_packs = 1 + case.extra.len();
+    let r = util::catch(|| {
+        let origin = scratch.path("origin");
+        std::fs::create_dir_all(&origin).unwrap();
+        // last content pack external, the others embedded with the empty location
+        let last = n_packs;
+        let created = match create_loose(&case, &origin, &|i, f| if i == last { f.to_string() } else { String::new() }, None) {
+            Ok(c) => c,
+            Err(e) => return out.inconclusive(format!("creation failed: {e}")),
+        };
+        // concat everything but the last pack into c.jbk (the manifest was written as c.jbk: move it aside first)
+        let manifest = origin.join("m.jbkm");
+        std::fs::rename(origin.join("c.jbk"), &manifest).unwrap();
+        let mut inputs = vec![manifest.clone(), origin.join("dir.jbkd")];
+        for i in 1..last {
+            inputs.push(origin.join(format!("pack{i}.jbkc")));
+        }
+        rng.shuffle(&mut inputs);
+        let outp = camino::Utf8PathBuf::from_path_buf(origin.join("c.jbk")).unwrap();
+        if let Err(e) = jubako::tools::concat(&inputs, &outp) {
+            return out.inconclusive(format!("concat failed (C10's concern): {e}"));
+        }
+        for f in &inputs {
+            let _ = std::fs::remove_file(f);
+        }
+        let plan = plan_for(&case, Some(&created));
+        let pristine_expected = expected_dump(&case, &created, &plan);
+        let mut scn = 0u64;
+        for (remove_external, damage_embedded) in [(false, false), (true, false), (true, true), (false, true)] {
+            let dir = scratch.path(&format!("l{remove_external}{damage_embedded}"));
+            copy_dir(&origin, &dir);
+            let ext = dir.join(format!("pack{last}.jbkc"));
+            if remove_external {
+                std::fs::remove_file(&ext).unwrap();
+            }
+            let mut damaged_id = None;
+            if damage_embedded && n_packs >= 3 {
+                // an embedded content pack which is NOT the first content pack listed (ids 2..last-1)
+                let target = rng.range(2, last as u64 - 1) as u16;
+                let f = dir.join("c.jbk");
+                let mut bytes = std::fs::read(&f).unwrap();
+                let view = indep::decode_file(&bytes);
+                let mut uuid_of = std::collections::BTreeMap::new();
+                if let Some(PackBody::Manifest { infos }) = view.manifest_pack().map(|p| &p.body) {
+                    for i in infos {
+                        uuid_of.insert(i.id, i.uuid);
+                    }
+                }
+                if let Some(pi) = view.packs.iter().position(|p| Some(&p.hdr.uuid) == uuid_of.get(&target)) {
+                    let spans: Vec<_> = view.spans.iter().filter(|s| s.pack == pi && s.name.starts_with("cluster data")).collect();
+                    if let Some(sp) = spans.first() {
+                        let pos = sp.start + rng.below(sp.end - sp.start);
+                        bytes[pos as usize] ^= 0x21;
+                        std::fs::write(&f, &bytes).unwrap();
+                        damaged_id = Some(target);
+                    }
+                }
+            }
+            let mut plan2 = plan.clone();
+            if let Some(d) = damaged_id {
+                plan2.addrs.retain(|(p, _)| *p != d);
+            }
+            let got = dump_container(&dir.join("c.jbk"), &plan2);
+            scn += 1;
+            out.obs.inc("scenario.loose-embedded");
+            let mut diffs = vec![];
+            // structure and contents of intact, available packs
+            let keep = |k: &str| {
+                if k.starts_with("check/") || k.starts_with("pack/") {
+                    return false;
+                }
+                if let Some(rest) = k.strip_prefix("content/") {
+                    let p: u16 = rest.split('/').next().unwrap().parse().unwrap_or(0);
+                    if Some(p) == damaged_id || (remove_external && p as usize == last) {
+                        return false;
+                    }
+                }
+                true
+            };
+            diffs.extend(diff(&pristine_expected, &got, keep));
+            if remove_external {
+                for (k, v) in &got {
+                    if let Some(rest) = k.strip_prefix("content/") {
+                        let p: usize = rest.split('/').next().unwrap().parse().unwrap_or(0);
+                        if p == last && !k.ends_with("/bytes") && !v.starts_with("ok:missing:") {
+                            diffs.push(format!("{k}: {v} (expected ok:missing:…)"));
+                        }
+                    }
+                }
+                out.obs.inc("packs_unavailable");
+            }
+            let chk = got.get("check/container").cloned().unwrap_or_default();
+            if damaged_id.is_some() {
+                out.obs.inc("scenarios_with_damaged_present_pack");
+                if chk == "ok:true" {
+                    diffs.push("check/container: ok:true although an embedded content pack (not the first one) was altered".into());
+                }
+            } else if chk != "ok:true" {
+                diffs.push(format!("check/container: {chk} (expected ok:true)"));
+            }
+            if !diffs.is_empty() {
+                let item = diffs[0].split(':').next().unwrap_or("").split('/').next().unwrap_or("").to_string();
+                out.violate(
+                    json!({"kind": "missing-pack", "mode": "loose-embedded", "item": item, "damaged": damaged_id.is_some(), "external_removed": remove_external, "profile": profile()}),
+                    format!("C11: embedded packs sharing the empty location, external pack {}{}: {} item(s) wrong; first: {}", if remove_external { "removed" } else { "present" }, if damaged_id.is_some() { ", one embedded pack altered" } else { "" }, diffs.len(), diffs[0]),
+                    json!({"diffs": diffs.iter().take(5).collect::<Vec<_>>()}),
+                );
+                return;
+            }
+        }
+        out.obs.add("scenarios", scn);
+        out.nontrivial = true;
+    });
+    if let Err(p) = r {
+        if p.in_harness() {
+            out.inconclusive(format!("harness panic {}:{} {}", p.file, p.line, p.msg));
+        } else {
+            out.violate_panic("C11", "scenario", "loose", &p);
+        }
+    }
+    out
+}
+
 pub fn run(desc: &Value, ctx: &Ctx) -> CaseOut {
+    if jstr(desc, "mode") == "loose" {
+        return run_loose(desc, ctx);
+    }
     let mut out = CaseOut::new();
     let case = ContCase::from_json(desc.get("case").unwrap());
     let mut rng = Rng::new(ju64(desc, "scn_seed"));
